@@ -12,8 +12,12 @@ _TMP = None
 def tmpdir():
     global _TMP
     if _TMP is None:
-        _TMP = tempfile.mkdtemp(prefix="nps_verif_")
-        atexit.register(shutil.rmtree, _TMP, ignore_errors=True)
+        base = os.environ.get("VERIF_RUN_TMP")
+        if base and os.path.isdir(base):
+            _TMP = base                      # the explorer removes it when the run ends
+        else:
+            _TMP = tempfile.mkdtemp(prefix="nps_verif_")
+            atexit.register(shutil.rmtree, _TMP, ignore_errors=True)
     return _TMP
 
 
